@@ -331,7 +331,27 @@ def presets(ctx) -> None:
     ctx.check(len(fresh) >= 2 and not any('self._' in core.src(x) and core.call_tail(x) == 'functor' for x in core.calls_in(add.node) if isinstance(x.func, ast.Attribute)), 'C01.presets', add, 'every compiled node gets its own freshly created action (user.Apply() / user.Train()) - no action object stored on the table and shared', add.node, key='add:fresh-actions')
 
 
+def system_instructions(ctx) -> None:
+    """The persistence instructions do exactly one thing each, for every value: the Dumper dumps the state it is given (an
+    empty state is still a state of that actor - skipping it leaves a hole at the actor's position), the Committer commits
+    the ids it is given in argument order, the Loader tolerates only "nothing to load yet"."""
+    prog = ctx.prog
+
+    def body(fn):
+        return [core.src(x) for x in fn.body if not (isinstance(x, ast.Expr) and (isinstance(x.value, ast.Constant) or core.src(x).startswith('LOGGER.')))]
+
+    du = prog.func(f'{SYSTEM}:Dumper.execute')
+    ctx.check(body(du) == [f'return self._assets.dump({du.param_names[1]})'], 'C01.persistence', du, f'Dumper.execute = dump the given state, unconditionally ({body(du)})', du.node, key='dumper:execute')
+    co = prog.func(f'{SYSTEM}:Committer.execute')
+    va = co.node.args.vararg.arg if co.node.args.vararg else None
+    ctx.check(va is not None and body(co) == [f'self._assets.commit({va})'], 'C01.persistence', co, f'Committer.execute = commit all given state ids in argument order ({body(co)})', co.node, key='committer:execute')
+    from . import C04
+
+    C04.loader_tolerance(ctx)
+
+
 def run(ctx) -> None:
+    system_instructions(ctx)
     refusals(ctx)
     presets(ctx)
     emission(ctx)
